@@ -1056,6 +1056,8 @@ class Interp:
             raise AnalysisError("%s:%d unsupported builtin %s" % (func.qualname, ln, base))
         if not name.startswith("np"):
             if any(name.startswith(m) for m in self.opaque_modules):
+                if getattr(self, "ext_value", None) is not None:
+                    return self.ext_value(name, args, kwargs)        # caller-supplied abstraction of the external function
                 return ExtCall(name, args, kwargs)
             raise AnalysisError("%s:%d call into unknown module %s" % (func.qualname, ln, name))
         if base in self.np_hooks:
